@@ -48,14 +48,22 @@ type scriptedConn struct {
 	closed     bool
 	closedErr  bool // i/o errors of the script are reported as wrapping net.ErrClosed
 	quietStall bool // a silent serial line is reported as (0, nil) instead of a deadline error
+	shortWrite bool // the first Write takes all but the last byte
+	writes     int
+	lastErr    error // the error value the last Read returned
+	slowBy     time.Duration
 }
 
 func (c *scriptedConn) Write(p []byte) (int, error) {
 	c.mu.Lock()
 	defer c.mu.Unlock()
 	c.written = append(c.written, p...)
+	c.writes++
 	if c.writeFails {
 		return 0, errInjectedWrite
+	}
+	if c.shortWrite && c.writes == 1 && len(p) > 1 {
+		return len(p) - 1, nil // io.Writer: fewer bytes than given and no error is not allowed, but ports do it
 	}
 	return len(p), nil
 }
@@ -63,6 +71,7 @@ func (c *scriptedConn) Write(p []byte) (int, error) {
 func (c *scriptedConn) Read(p []byte) (int, error) {
 	c.mu.Lock()
 	serve := func(data []byte, err error, tag string) (int, error) {
+		c.lastErr = err
 		n := copy(p, data)
 		c.served = append(c.served, fmt.Sprintf("r:%s:%d:%s", hx(data[:n]), n, tag))
 		c.mu.Unlock()
@@ -88,13 +97,29 @@ func (c *scriptedConn) Read(p []byte) (int, error) {
 			time.Sleep(d)
 		}
 		if c.serial && c.quietStall {
+			c.mu.Lock()
+			c.lastErr = nil
+			c.mu.Unlock()
 			return 0, nil // a serial library that reports its read timeout as "nothing read, no error"
 		}
+		c.mu.Lock()
+		c.lastErr = os.ErrDeadlineExceeded
+		c.mu.Unlock()
 		return 0, os.ErrDeadlineExceeded
 	}
 	ev := c.script[0]
 	c.script = c.script[1:]
 	switch ev.kind {
+	case "sd":
+		// the read that delivers these bytes returns only after the total read timeout of the call has passed
+		c.mu.Unlock()
+		time.Sleep(c.slowBy)
+		c.mu.Lock()
+		n := len(ev.data)
+		if n > len(p) {
+			n = len(p)
+		}
+		return serve(ev.data[:n], nil, "nil")
 	case "d":
 		n := len(ev.data)
 		if n > len(p) {
@@ -163,8 +188,9 @@ func (s serialFlush) Flush() error {
 }
 
 type hookRec struct {
-	mu  sync.Mutex
-	log []string
+	mu   sync.Mutex
+	log  []string
+	conn *scriptedConn
 }
 
 func (h *hookRec) BeforeWrite(b []byte) {
@@ -182,6 +208,14 @@ func (h *hookRec) AfterEachRead(b []byte, n int, err error) {
 		tag = "eof"
 	default:
 		tag = "io"
+	}
+	if h.conn != nil && err != nil {
+		h.conn.mu.Lock()
+		same := err == h.conn.lastErr
+		h.conn.mu.Unlock()
+		if !same {
+			tag += "!not-the-error-the-read-returned"
+		}
 	}
 	h.mu.Lock()
 	h.log = append(h.log, fmt.Sprintf("r:%s:%d:%s", hx(b), n, tag))
@@ -213,6 +247,8 @@ func parseScript(s string) (evs []readEv, writeFails bool, preCancel bool) {
 			evs = append(evs, readEv{kind: "c"})
 		case strings.HasPrefix(t, "td:"):
 			evs = append(evs, readEv{kind: "td", data: unhx(t[3:])})
+		case strings.HasPrefix(t, "sd:"):
+			evs = append(evs, readEv{kind: "sd", data: unhx(t[3:])})
 		case len(t) >= 2 && t[1] == ':':
 			evs = append(evs, readEv{kind: t[:1], data: unhx(t[2:])})
 		default:
@@ -412,8 +448,9 @@ func runDoOnce(kind string, hooks bool, flusher string, reqSpec string, script s
 		cancel()
 	}
 	conn := &scriptedConn{script: evs, writeFails: writeFails, cancel: cancel, serial: kind == "s",
-		closedErr: variantOf("x"+reqSpec+script)%2 == 1, quietStall: variantOf("q"+reqSpec+script)%2 == 1}
-	rec := &hookRec{}
+		closedErr: variantOf("x"+reqSpec+script)%2 == 1, quietStall: variantOf("q"+reqSpec+script)%2 == 1,
+		shortWrite: kind == "s" && variantOf("sw"+reqSpec+script)%3 == 1}
+	rec := &hookRec{conn: conn}
 	failedConnect := strings.HasPrefix(reqSpec, "ncf:")
 	notConnected := strings.HasPrefix(reqSpec, "nc:") || failedConnect
 	if failedConnect {
@@ -444,6 +481,10 @@ func runDoOnce(kind string, hooks bool, flusher string, reqSpec string, script s
 	}
 	if stalls {
 		readTimeout = time.Duration(scale) * 120 * time.Millisecond
+	}
+	if strings.Contains(script, "sd:") && scale > 0 {
+		readTimeout = time.Duration(scale) * 120 * time.Millisecond
+		conn.slowBy = readTimeout + 40*time.Millisecond
 	}
 	// some of the complete exchanges are made with a short timeout and repeated on the same client after it sat idle
 	// for longer than that timeout
@@ -648,6 +689,9 @@ func runDoOnce(kind string, hooks bool, flusher string, reqSpec string, script s
 		conf := modbus.ClientConfig{
 			ReadTimeout:     readTimeout,
 			DialContextFunc: func(ctx context.Context, address string) (net.Conn, error) { return conn, nil },
+		}
+		if variantOf("wt"+reqSpec+script)%2 == 1 {
+			conf.WriteTimeout = time.Hour // the read timeout is the one that bounds the wait for a reply
 		}
 		if hooks {
 			conf.Hooks = rec
